@@ -61,7 +61,7 @@ class Controller:
         self.logfile = os.path.join(workdir, "send.log")
         self.seq = 0
         self.qdir = os.path.join(tree.root, "queue")
-        self.timeout = 20.0
+        self.timeout = 60.0
         self.grants = 0
         self.expect = set()       # pids started by us that have not said hello yet
 
